@@ -705,6 +705,17 @@ package jd
 //@   ensures_bounded [C05] verifDupIdentity(a, options) || verifDupIdentity(b, options) ==> (len(ret0) == 0) == a.Equals(b, options...)
 //@   carries C05
 
+//@ contract verifTwoKeys
+//@   bounded
+//@   universe a verifTwoKeyDocs()
+//@   universe b verifTwoKeyDocs()
+//@   universe options [][]Option{{SetKeys("a", "b")}, {SET, SetKeys("a", "b")}}
+//@   requires validNode(a) && validNode(b) && verifDomain(a, b, options) && verifNoSwappedTwoKey(a, b)
+//@   ensures_bounded [C01] verifPatchGives(a, ret0, b, options)
+//@   ensures_bounded [C05] (len(ret0) == 0) == specEq(a, b, options)
+//@   ensures_bounded [C07] verifHunksReal(a, b, options)
+//@   carries C01 C05 C07
+
 //@ contract verifKeyedDiff
 //@   bounded
 //@   cap 250000 3000000
